@@ -344,15 +344,35 @@ func c13r2(c *Ctx) {
 	}
 	c.Count("shared append bases", n)
 	// package-level *big.Int values
-	for _, name := range sortedMembers(c.P.Pkg["builtInFunctions"]) {
-		g, ok := c.P.Pkg["builtInFunctions"].Members[name].(*ssa.Global)
+	// … of every package of the module (a decoder that hands out one shared zero makes every caller's in-place arithmetic
+	// depend on earlier, unrelated calls)
+	var pkgNames []string
+	for pn := range c.P.Pkg {
+		pkgNames = append(pkgNames, pn)
+	}
+	sort.Strings(pkgNames)
+	type gref struct {
+		pkg, name string
+	}
+	var globals []gref
+	for _, pn := range pkgNames {
+		for _, name := range sortedMembers(c.P.Pkg[pn]) {
+			globals = append(globals, gref{pn, name})
+		}
+	}
+	for _, gr := range globals {
+		name := gr.name
+		g, ok := c.P.Pkg[gr.pkg].Members[name].(*ssa.Global)
 		if !ok || !isBigIntPtr(g.Type().(*types.Pointer).Elem()) {
 			continue
+		}
+		if gr.pkg != "builtInFunctions" && gr.pkg != "" {
+			name = gr.pkg + "." + name
 		}
 		var bad []string
 		nuse := 0
 		for _, fn := range c.P.Funcs {
-			if !c.P.InPkgs(fn, "builtInFunctions") {
+			if !c.P.Src(fn) {
 				continue
 			}
 			for _, b := range fn.Blocks {
